@@ -372,7 +372,9 @@ EXPORT errno_t _qsort_s_chk(void *base, rsize_t nmemb, rsize_t size,
         BND_CHK_PTR_BOUNDS(base, nmemb * size);
     } else {
         rsize_t basesz = nmemb * size;
-        if (unlikely(basesz > basebos)) {
+        /* nmemb * size may wrap around for values above the limit */
+        if (unlikely(nmemb > RSIZE_MAX_MEM || size > RSIZE_MAX_MEM ||
+                     basesz > basebos)) {
             invoke_safe_str_constraint_handler("qsort_s: nmemb*size exceeds sizeof base",
                                                NULL, ESNOSPC);
             return RCNEGATE(ESNOSPC);
